@@ -146,6 +146,17 @@ theorem C19_ngram_enumeration (s : Text) (hv : ∀ c ∈ s, c.code < 0x110000) (
   rw [frontiers_eq_boundaries s hv]
   exact stutterAll_eq_spec (boundariesFrom 0 s) minG maxG hmin hle (by cases s <;> simp [boundariesFrom])
 
+/-- the guards of `NgramTokenizer::new` (read from the source) accept exactly the settings the
+n-gram theorems assume: every constructible n-gram tokenizer has `0 < min_gram ≤ max_gram` -/
+theorem C19_ngram_constructor_guards (minG maxG : Nat) :
+    ngramNewOk minG maxG = true ↔ (0 < minG ∧ minG ≤ maxG) := by
+  have h1 : Gen.NGRAM_NEW_REJECTS_ZERO_MIN = 1 := by decide
+  have h2 : Gen.NGRAM_NEW_REJECTS_MIN_GT_MAX = 1 := by decide
+  unfold ngramNewOk
+  rw [h1, h2]
+  simp
+  omega
+
 /-- NgramTokenizer (all n-grams and prefix-only): token contract, text = slice, position 0 -/
 theorem C19_ngram_offsets (s : Text) (hv : ∀ c ∈ s, c.code < 0x110000) (minG maxG : Nat)
     (hmin : 0 < minG) (hle : minG ≤ maxG) (prefixOnly : Bool) :
@@ -617,6 +628,26 @@ theorem C19_rewriting_filters_keep_token_sequence (f : Filter) (hf : f.Rewrites)
     (f.apply ts).map (fun t => (t.from_, t.to, t.pos)) = ts.map (fun t => (t.from_, t.to, t.pos)) :=
   apply_rewrites_keys f hf ts
 
+/-- "a token that was not normalised equals the slice of text it points to", for filter chains:
+remove-long, alphanumeric-only and stop-word filters in any order only drop tokens — what comes out
+is a sub-sequence of the tokenizer's tokens, each still equal to its slice -/
+theorem C19_dropping_chain_keeps_text_is_slice (s : Text) (ts0 : List Token)
+    (hs : ∀ t ∈ ts0, TextIsSlice s t) (fs : List Filter) (hfs : ∀ f ∈ fs, f.Drops) :
+    (applyChain fs ts0).Sublist ts0 ∧ ∀ t ∈ applyChain fs ts0, TextIsSlice s t := by
+  have h := chain_drops_sublist fs hfs ts0
+  exact ⟨h, fun t ht => hs t (h.subset ht)⟩
+
+/-- … instantiated for the Simple / Whitespace tokenizers -/
+theorem C19_scan_dropping_chain_text_is_slice (p : Cp → Bool) (s : Text) (fs : List Filter)
+    (hfs : ∀ f ∈ fs, f.Drops) : ∀ t ∈ applyChain fs (scanTokens p s), TextIsSlice s t :=
+  (C19_dropping_chain_keeps_text_is_slice s _ (scanTokens_contract p s).2.1 fs hfs).2
+
+/-- `select_best_fragment_combination` (`max_by`): the fragment it picks is one of the candidates
+and no candidate has a higher score -/
+theorem C19_selected_fragment_has_max_score (frags : List Frag) (f : Frag)
+    (h : selectBest frags = some f) : f ∈ frags ∧ ∀ g ∈ frags, g.score ≤ f.score :=
+  ⟨selectBest_mem frags f h, selectBest_max frags f h⟩
+
 /-- `RemoveLongFilter::limit(L)` right behind a tokenizer (tokens still equal to their slice; the
 strict `<` of the predicate is read from the source), followed by any filters: every token is
 shorter than `L` bytes *in the text* -/
@@ -816,6 +847,14 @@ theorem C19_scan_history_independent (p : Cp → Bool) (left : Nat) (s : Text) :
   unfold scanStream scanTokens
   rw [h]
 
+/-- history independence of the facet tokenizer's accumulating text buffer: whatever text an
+earlier (abandoned) stream left in the tokenizer's token, the next stream starts from the empty
+text — the stateful stream is `facetChain` -/
+theorem C19_facet_history_independent (sep : Nat) (fs : List Filter) (left : List Nat) (s : Text) :
+    facetStream Gen.TOKENIZERS_RESET_TOKEN sep fs left s = facetChain sep fs s := by
+  unfold facetStream facetChain
+  rw [if_neg C19_tokenizers_reset_token.1]
+
 /-- without the reset the positions of the next text continue where the last stream stopped -/
 theorem C19_scan_no_reset_counterexample :
     scanStream 0 1 (fun c => c.alnum) 4 [⟨97, true⟩] = [⟨0, 1, 5, [97]⟩] := by decide
@@ -841,6 +880,10 @@ example : SContract [⟨97, true⟩, ⟨233, true⟩, ⟨32, false⟩, ⟨98, tr
     ∧ ∀ t ∈ [(⟨0, 3, some 4⟩ : STok), ⟨4, 5, none⟩], t.to - t.from_ ≤ 3 :=
   ⟨⟨by decide, by decide⟩, by decide, by decide⟩
 example : [(⟨0, 3, some 4⟩ : STok), ⟨4, 5, none⟩].Pairwise (fun a b => a.to ≤ b.from_) := by decide
+example : ∀ f ∈ [Filter.removeLong 40, Filter.alnumOnly, Filter.stop [[116, 104, 101]]], f.Drops := by
+  simp [Filter.Drops]
+example : selectBest [⟨1, 0, 3, []⟩, ⟨2, 4, 7, []⟩, ⟨2, 8, 9, []⟩] = some ⟨2, 4, 7, []⟩ := by decide
+example : ngramNewOk 2 3 = true ∧ ngramNewOk 0 3 = false ∧ ngramNewOk 4 3 = false := by decide
 -- the hypotheses of the instance theorems
 example : (Filter.lower (fun c => [c])).Rewrites ∧ (Filter.removeLong 40).NoSplit
     ∧ ∀ f ∈ [Filter.removeLong 40, Filter.lower (fun c => [c]), Filter.alnumOnly], f.NoSplit := by
